@@ -1,5 +1,6 @@
 import Percival.Driver.Netbuf
 import Percival.Driver.Netbufmon
+import Percival.Proofs.NetbufAns
 /-!
 # The cut of a printed line into tokens (labelled tests, C07)
 
@@ -9,7 +10,8 @@ by single spaces followed by ` | ` and the L2 part, and that cutting the L1 part
 tokens back.  What is NOT proved is that the cut `Driver/Loop.loopMon` really makes (`trimAscii`, the legacy
 `String.splitOn " "`, dropping empty tokens) and the cut at ` | ` (`tools/vlib.py`; `splitOn " | "` here) give the same
 tokens: that is checked here by evaluation (`#guard`, at every build) on an output of every shape
-(`cutAgrees`), together with the end-to-end equation `parseAns (cut (render o)) = Out.ans o` (`agrees`).
+(`cutAgrees`, and `loopCutOk`, the hypothesis of `C07.monitor_reads_loop_line_partial`), together with the end-to-end
+equation `parseAns (cut (render o)) = Out.ans o` (`agrees`).
 -/
 namespace Percival.KAT.NetbufAns
 open Percival.Model Percival.Model.NetbufStep Percival.Spec.NetbufMon Percival.Driver
@@ -39,7 +41,8 @@ def long : List UInt8 := (List.range 70).map UInt8.ofNat
         .peek 70 (shownOf long 70) r, .peek 0 (.hex []) r,
         .spin [] 0 0 .none 0 r w, .spin [.succ 4 none] 0 0 .none 0 r w,
         .spin [.succ 5 (some (.hex [1, 2])), .succ 3 (some .none), .status 1, .status (-1)] 1 2 (.hex [7, 8]) 2 r w,
-        .spin [.succ 70 (some (shownOf long 70))] 0 70 (shownOf long 70) 3 r w].all cutAgrees
+        .spin [.succ 70 (some (shownOf long 70))] 0 70 (shownOf long 70) 3 r w].all
+    fun o => cutAgrees o && Proofs.NetbufAns.loopCutOk o
 -- the shapes on which `parseAns ∘ cut ∘ render` and `Out.ans` differ (the hypotheses of
 -- `C07.monitor_reads_printed_answer`): a record whose bytes the model could not read from its own buffer is printed
 -- `0:<a>:model-oob`, which the monitor cannot read (`other`: rejected), while `Out.ans` shows it as `succ a none`.
@@ -52,6 +55,7 @@ def long : List UInt8 := (List.range 70).map UInt8.ofNat
 #guard ((runOps {} [.netDeliver [1, 2, 3, 4, 5], .netEof, .rLoop 2 2 3, .wWrite [7, 8, 9], .netAccept 2, .netSendfail,
     .spin, .rPeek, .rConsumeUpto 9, .wReserve 4, .spin, .wConsume [1]]).2).all agrees
 #guard ((runOps {} [.netDeliver [1, 2, 3, 4, 5], .netEof, .rLoop 2 2 3, .wWrite [7, 8, 9], .netAccept 2, .netSendfail,
-    .spin, .rPeek, .rConsumeUpto 9, .wReserve 4, .spin, .wConsume [1]]).2).all cutAgrees
+    .spin, .rPeek, .rConsumeUpto 9, .wReserve 4, .spin, .wConsume [1]]).2).all
+  fun o => cutAgrees o && Proofs.NetbufAns.loopCutOk o
 
 end Percival.KAT.NetbufAns
